@@ -46,6 +46,11 @@ def check(chk, fx):
     c08.gct(chk, fx)
     lexrules.iter_rule(chk, fx)
     lexrules.charidx(chk, fx)
+    from .. import golden, goldenreg
+    # a regex term's pattern is read by the pattern lexer and decoded by regex_char / string_view_to_subset: their
+    # reference summaries (reviewed against the documented syntax)
+    golden.group(chk, fx, "REGEXFE", "reference summaries of the regex front end (pattern lexer, character decoding)",
+                 goldenreg.GROUPS["REGEXFE"])
     from .. import stdexrules
     stdexrules.bitset(chk, fx)       # character classes / item and FIRST sets live in cbitset
     lexrules.tag(chk, fx)
